@@ -279,6 +279,8 @@ def prepare(args):
     G["anns"] = anns
     G["build_fail"] = build_fail
     G["short"] = [i for i, t in enumerate(G["strings"]) if len(t) <= 2]
+    G["long"] = [i for i, t in enumerate(G["strings"]) if len(t) == 3]
+    G["cstr"] = (G["strings"].index(("*c",)), G["strings"].index(("*#c",)))
     G["by_rank"] = {}
     for j, s in enumerate(G["shapes"]):
         G["by_rank"].setdefault(len(s), []).append(j)
@@ -367,7 +369,7 @@ class Acc:
                     cur[1], cur[2] = key, d
 
 
-def judge(acc, hist, mode="ctx", leak_state=None):
+def judge(acc, hist, mode="ctx", leak_state=None, count=True):
     """Run one history on the real code and compare every verdict with both oracles.
     Returns the list of real verdicts (or None when the history could not be built)."""
     strings, shapes = G["strings"], G["shapes"]
@@ -381,11 +383,11 @@ def judge(acc, hist, mode="ctx", leak_state=None):
     rejected_before = False
     for k, (i, j) in enumerate(hist):
         toks, shape = strings[i], shapes[j]
-        adm, new_state, legal = step(state, toks, shape)
+        adm, new_state, legal = FRESH[i][j] if state is EMPTY else step(state, toks, shape)
         expected.append(adm)
         if legal:
             # the two oracles must agree wherever no unbound symbolic axis is involved
-            s2 = sat_ok(sat_and(sat, sat_mask(toks, shape)))
+            s2 = sat_ok(sat_and(sat, SATMASK[i][j]))
             if (adm == "T") != s2 or adm not in ("T", "F"):
                 raise AssertionError("oracle disagreement on %r: stepwise %s, brute force %s" % (
                     [(dims_of(strings[a]), shapes[b]) for a, b in hist[:k + 1]], adm, s2))
@@ -394,6 +396,13 @@ def judge(acc, hist, mode="ctx", leak_state=None):
             acc.fail("unexpected-exception", hist[:k + 1], "".join(e + "," for e in expected)[:-1], ",".join(real[:k + 1]))
             return real
         if r not in adm:
+            if k > 0:
+                # does this check already get a wrong answer on its own, in a fresh context?  then say so
+                alone = run_real([hist[k]], mode)
+                adm0 = FRESH[i][j][0]
+                if alone[0] not in adm0:
+                    acc.fail("verdict", [hist[k]], adm0, alone[0])
+                    return real
             if k == 0:
                 clause = "verdict"
             elif rejected_before:
@@ -404,17 +413,17 @@ def judge(acc, hist, mode="ctx", leak_state=None):
             return real
         if r == "T":
             state = new_state
-            sat = sat_and(sat, sat_mask(toks, shape))
+            sat = sat_and(sat, SATMASK[i][j])
         else:
             rejected_before = True
     # measured non-triviality: the last check got past the rank test, and (for histories) its oracle answer
     # depends on what happened before (or would, had the partial bindings of a rejected check leaked)
     li, lj = hist[-1]
-    if align(strings[li], shapes[lj]) is not None:
+    if count and align(strings[li], shapes[lj]) is not None:
         if len(hist) == 1:
             acc.nontrivial += 1
         else:
-            fresh = step(EMPTY, strings[li], shapes[lj])[0]
+            fresh = FRESH[li][lj][0]
             if expected[-1] != fresh or ("T" in real[:-1] and MENTIONS_ANY[li]):
                 acc.nontrivial += 1
             elif leak_state is not None and step(leak_state, strings[li], shapes[lj])[0] != fresh:
@@ -423,6 +432,8 @@ def judge(acc, hist, mode="ctx", leak_state=None):
 
 
 MENTIONS_ANY = {}
+FRESH = []    # FRESH[i][j] = step(EMPTY, strings[i], shapes[j]), filled by the parent before forking
+SATMASK = []  # SATMASK[i][j] = sat_mask(strings[i], shapes[j])
 
 
 def leak_candidates(toks, shape):
@@ -462,7 +473,7 @@ def work(task):
         _, lo, hi, mode = task
         for i in range(lo, hi):
             for j in range(nshapes):
-                judge(acc, [(i, j)], mode)
+                judge(acc, [(i, j)], mode, count=(mode == "ctx"))
     elif kind == "h2":
         # firsts x seconds (seconds = list of string indices, all shapes), optional subsampling by stride
         _, firsts, seconds, stride, offset = task
@@ -480,13 +491,19 @@ def work(task):
                     if real is not None and real[0] == "T":
                         maybe_reverse(acc, hist, real)
     elif kind == "rand":
-        _, seed, count, length = task
+        # distinct by construction: tasks partition the first checks, a task never repeats a history, 2-histories use
+        # second strings of exactly 3 tokens (H2 covers <=2) and 3-histories avoid the H3c space
+        _, seed, count, length, part, nparts = task
         rng = random.Random(seed)
-        firsts = G["rep_all"]
-        for _ in range(count):
+        firsts = G["rep_all"][part::nparts]
+        pool = G["long"] if length == 2 else range(len(strings))
+        cstr = G["cstr"]
+        seen = set()
+        done = 0
+        while done < count:
             hist = [rng.choice(firsts)[:2]]
             while len(hist) < length:
-                si = rng.randrange(len(strings))
+                si = rng.choice(pool)
                 toks = strings[si]
                 nm = sum(1 for t in toks if TOKEN_MEANING[t][0] == "multi")
                 if rng.random() < 0.9:
@@ -496,9 +513,22 @@ def work(task):
                 else:
                     sj = rng.randrange(nshapes)
                 hist.append((si, sj))
+            key = tuple(hist)
+            if key in seen or (length == 3 and hist[0][0] in cstr and hist[1][0] in cstr):
+                continue
+            seen.add(key)
+            done += 1
             real = judge(acc, hist, "ctx")
             if real is not None and length == 2 and real[0] == "T":
                 maybe_reverse(acc, hist, real)
+    elif kind == "h3c":
+        # '*c' state transitions that need two accepted checks: X, Y in {'*c','*#c'} x shapes of rank<=2, Z given
+        _, xs, ys, zs = task
+        for x in xs:
+            for y in ys:
+                for zi in zs:
+                    for zj in range(nshapes):
+                        judge(acc, [x, y, (zi, zj)], "ctx")
     else:
         raise AssertionError(kind)
     return acc
@@ -523,17 +553,16 @@ def maybe_reverse(acc, hist, real):
     unbound symbolic axis, 'both accepted' must not depend on the order."""
     (fi, fj), (si, sj) = hist
     strings, shapes = G["strings"], G["shapes"]
-    a1, st1, legal1 = step(EMPTY, strings[si], shapes[sj])
+    a1, st1, legal1 = FRESH[si][sj]
     if a1 != "T" or not legal1:
         return
-    a2, _, legal2 = step(st1, strings[fi], shapes[fj])
-    if not legal2:
+    f1, fst, flegal = FRESH[fi][fj]
+    if f1 != "T" or not flegal:
         return
-    f1, fst, flegal = step(EMPTY, strings[fi], shapes[fj])
-    if f1 != "T" or not flegal or not step(fst, strings[si], shapes[sj])[2]:
+    if not step(st1, strings[fi], shapes[fj])[2] or not step(fst, strings[si], shapes[sj])[2]:
         return
     rev = [(si, sj), (fi, fj)]
-    real_rev = judge(acc, rev, "ctx")
+    real_rev = judge(acc, rev, "ctx", count=False)
     if real_rev is None:
         return
     both = real == ["T", "T"]
@@ -552,8 +581,12 @@ def choose_representatives(seed, k_acc, k_rej):
     rng = random.Random(seed)
     by_state, by_leak = {}, {}
     for i, toks in enumerate(strings):
+        FRESH.append([])
+        SATMASK.append([])
         for j, shape in enumerate(shapes):
             adm, st, legal = step(EMPTY, toks, shape)
+            FRESH[i].append((adm, st, legal))
+            SATMASK[i].append(sat_mask(toks, shape))
             if adm == "T":
                 by_state.setdefault(st, []).append((i, j))
             elif adm in ("F", "E", "FE"):
@@ -588,9 +621,9 @@ def main():
     k_acc, k_rej = (3, 2) if thorough else (1, 1)
     acc_reps, rej_reps, n_states, n_leaks = choose_representatives(args.seed, k_acc, k_rej)
     G["rep_all"] = acc_reps + rej_reps
-    stride = 1 if thorough else 6
-    n_rand2 = 1500000 if thorough else 120000
-    n_rand3 = 3000000 if thorough else 0
+    stride = 1 if thorough else 8
+    n_rand2 = 1500000 if thorough else 100000
+    n_rand3 = 3000000 if thorough else 60000
 
     tasks = []
     for lo in range(0, len(strings), 100):
@@ -606,9 +639,17 @@ def main():
         off += 1
     per = 20000
     for c in range(n_rand2 // per):
-        tasks.append(("rand", args.seed * 1000003 + c, per, 2))
+        tasks.append(("rand", args.seed * 1000003 + c, per, 2, c, n_rand2 // per))
     for c in range(n_rand3 // per):
-        tasks.append(("rand", args.seed * 1000003 + 500000 + c, per, 3))
+        tasks.append(("rand", args.seed * 1000003 + 500000 + c, per, 3, c, n_rand3 // per))
+
+    cstr = [strings.index(("*c",)), strings.index(("*#c",))]
+    low = [j for j, sh in enumerate(shapes) if len(sh) <= 2]
+    xy = [(i, j) for i in cstr for j in low]
+    zs = [i for i in short if "c" in MENTIONS_SET[i]] if thorough else cstr
+    for x in xy:
+        tasks.append(("h3c", [x], xy, zs))
+    n_h3c = len(xy) * len(xy) * len(zs) * len(shapes)
 
     total = Acc()
     for toks, err in G["build_fail"]:
@@ -617,13 +658,21 @@ def main():
             case="C01:build:'%s'" % dims_of(toks), clause="build", input=dims_of(toks), expected="annotation builds",
             actual=err, snippet="import numpy as np\nfrom jaxtyping import Shaped\nShaped[np.ndarray, %r]" % dims_of(toks))]
     ctx = get_context("fork")
-    with ctx.Pool(min(8, os.cpu_count() or 1)) as pool:
+    with ctx.Pool(max(1, min(7, (os.cpu_count() or 2) - 1))) as pool:
         for acc in pool.imap_unordered(work, tasks, chunksize=1):
             total.merge(acc)
 
     tally = _common.Tally()
     tally.evaluations = total.evals
-    for cid in sorted(total.classes)[: tally.max_failures]:
+    prio = {"build": 0, "unexpected-exception": 1, "verdict": 2, "verdict-after-accepted": 3, "rollback": 4,
+            "order-dependence": 5}
+
+    def order(cid):
+        d = total.classes[cid][2]
+        ntok = sum(len(x[0].split()) for x in d["input"]) if isinstance(d["input"], list) else 0
+        return (prio.get(d["clause"], 9), ntok, cid)
+
+    for cid in sorted(total.classes, key=order)[: tally.max_failures]:
         n, _, d = total.classes[cid]
         d = dict(d)
         d["instances"] = n
@@ -646,10 +695,13 @@ def main():
         "and %d per distinct set of bindings a rejected/AnnotationError check could have leaked (%d sets, %d firsts; second "
         "strings restricted to those mentioning a possibly-leaked name); second check = every string of <=2 tokens (%d) x every "
         "shape%s; plus the reversed history whenever both orders are legal. "
-        "R2: %d seeded random 2-histories (second string <=3 tokens, rank-compatible shape w.p. 0.9). "
-        "H3: %d seeded random 3-histories."
+        "R2: %d distinct seeded random 2-histories (first from the same representatives, second string of exactly 3 tokens, "
+        "rank-compatible shape w.p. 0.9). "
+        "H3c: every 3-history X,Y,Z with X,Y in {'*c','*#c'} x shapes of rank<=2 and Z in %s x every shape (%d, exhaustive). "
+        "H3: %d distinct seeded random 3-histories outside H3c (first from the representatives, then any string)."
         % (ALPHABET, len(strings), len(shapes), k_acc, n_states, len(acc_reps), k_rej, n_leaks, len(rej_reps), nshort,
-           "" if stride == 1 else " (every %dth pair of that product)" % stride, n_rand2, n_rand3)
+           "" if stride == 1 else " (every %dth pair of that product)" % stride, n_rand2,
+           "every <=2-token string mentioning c" if thorough else "{'*c','*#c'}", n_h3c, n_rand3)
     )
     rule = (
         "Each verdict (True/False/AnnotationError) is compared with a stepwise reference semantics written from the statement "
@@ -661,7 +713,9 @@ def main():
         "names (True or AnnotationError). Clauses: verdict (first check), verdict-after-accepted, rollback (a check after a "
         "rejected/erroring one must behave as if that one never happened), order-dependence, unexpected-exception, build. "
         "A case is counted non-trivial when the last check passes the rank test (H1) or its oracle answer depends on the "
-        "preceding checks / mentions a name while something was accepted before / would change had the rejected check leaked."
+        "preceding checks / mentions a name while something was accepted before / would change had the rejected check leaked. "
+        "distinct_nontrivial counts each history once: the enumerated parts are disjoint by construction, the fn-mode repeat of "
+        "H1 and the reversed histories are evaluated but not counted."
     )
     _common.emit(
         tally, bound=bound, rule=rule, exhaustive=False,
